@@ -7,7 +7,7 @@ Notation bytes := (list int).
 Notation mkOb3 := (@mkOb B3).
 
 Definition kind_from (c : N) : io_kind :=
-  if c =? 0 then KOther else if c =? 1 then KUnexpectedEof else if c =? 2 then KConnectionReset
+  if (c =? 0) || (c =? 6) then KOther else if c =? 1 then KUnexpectedEof else if c =? 2 then KConnectionReset
   else if c =? 3 then KWriteZero else if c =? 4 then KInvalidInput else KInvalidData.
 Fixpoint evs_of (l : list N) (fuel : nat) : list ev :=
   match fuel with
